@@ -1,5 +1,5 @@
 (** * C03 — the trade ledger is complete, exact and conserves volume *)
-From Bourse Require Import Model.Types Model.Book Proofs.Ledger.
+From Bourse Require Import Model.Types Model.Book Spec.RefBook Proofs.Ledger Proofs.Refine Proofs.Volumes Proofs.PosVol Proofs.LedgerRef.
 
 (** For every operation of the API: the new log is the old log plus a suffix
     (records already in the log never change), every new record carries the
@@ -29,6 +29,51 @@ Theorem c03_log_prefix_stable : forall s ops s',
   run s ops = Ok s' -> exists new, b_trades s' = b_trades s ++ new.
 Proof. exact log_prefix_stable. Qed.
 
+(** Every new record, read against the order list after the operation
+    ([trade_ok]): positive volume; stamped with the book time; aggressor and passive
+    are two different existing orders on opposite sides; the record carries the
+    passive order's side and price; the aggressor's limit admits that price (the
+    passive's limit is the price). Every order ([ledger_audit]): the volume it held
+    before equals the volume it holds after plus the volume of this operation's
+    records it is a party of - unless the operation explicitly sets its volume, in
+    which case the requested volume takes the place of the volume before. An order
+    created (and possibly placed) by the call: requested volume = remaining volume
+    + its records. Holds in every state satisfying [Inv] whose restable orders have
+    positive volume (every reachable state of a valid history, see C02). *)
+Theorem c03_ledger_audit_step : forall s o s' x,
+  Inv s -> posvol_tbl (map e_order (b_orders s)) -> op_u32 o -> step_raw s o = Ok (s', x) ->
+  exists new, b_trades s' = b_trades s ++ new /\
+    ledger_audit o (b_t s) (map e_order (b_orders s)) (map e_order (b_orders s')) new /\
+    (forall id, x = OCreated (Created id) ->
+       exists b, nth_error (map e_order (b_orders s')) id = Some b /\ req_vol o = o_vol b + traded id new).
+Proof. exact step_raw_ledger. Qed.
+
+(** Over any history: remaining volume plus everything the log says the order
+    traded is constant as long as no request sets its volume explicitly. *)
+Theorem c03_conservation_history : forall ops s s' xs,
+  Inv s -> posvol_tbl (map e_order (b_orders s)) -> Forall op_u32 ops -> Forall op_vols ops ->
+  run_outs s ops = Ok (s', xs) ->
+  forall j a, nth_error (map e_order (b_orders s)) j = Some a -> Forall (fun o => ~ vol_modifies j o) ops ->
+    exists b, nth_error (map e_order (b_orders s')) j = Some b /\
+              o_vol a + traded j (b_trades s) = o_vol b + traded j (b_trades s').
+Proof. exact run_conservation. Qed.
+
+(** The reference walk behind the records: per passive order, volume before =
+    volume after + its records of this walk; aggressor likewise; counter moves by
+    the same sum. *)
+Theorem c03_walk_conserves : forall t q agg tb log tv agg' tb' q' log' tv',
+  NoDup q ->
+  (forall id, In id q -> exists p, nth_error tb id = Some p /\ o_id p = id /\ o_side p = opp (o_side agg) /\ 0 < o_vol p) ->
+  ref_match t agg tb q log tv = (agg', tb', q', log', tv') ->
+  exists new, log' = log ++ new /\ tv' = tv + sumv new /\
+    Forall (walk_trade t agg tb q) new /\
+    o_vol agg = o_vol agg' + sumv new /\
+    (forall j a, nth_error tb j = Some a ->
+       exists b, nth_error tb' j = Some b /\ o_vol a = o_vol b + pvol j new /\ o_price b = o_price a /\ o_side b = o_side a).
+Proof. exact ref_match_ledger. Qed.
+
+Check c03_ledger_audit_step.
+
 Check c03_ledger_step : forall s o s' x,
   step_raw s o = Ok (s', x) ->
   exists new,
@@ -49,3 +94,6 @@ Proof. vm_compute. reflexivity. Qed.
 Print Assumptions c03_ledger_step.
 Print Assumptions c03_fill_record.
 Print Assumptions c03_log_prefix_stable.
+Print Assumptions c03_ledger_audit_step.
+Print Assumptions c03_conservation_history.
+Print Assumptions c03_walk_conserves.
